@@ -15,8 +15,19 @@ def units(tier):
 
 def judge_word(name, word, route='api'):
     found = []
-    if route == 'api':
+    if route in ('api', 'emptied'):
         w = hist.World(name)
+        if route == 'emptied':
+            # the element held a (repeating) valid word before and every child was removed again: it must behave like a fresh one
+            m = lib.content_model(name)
+            pre = emptied_prefix(name)
+            for a in pre:
+                if not w.apply(['ADD', a]).ok:
+                    return []
+            for _ in pre:
+                if not w.apply(['REMOVE', 0]).ok:
+                    return []
+            w.steps = []
         for a in word:
             st = w.apply(['ADD', a])
             if not st.ok:
@@ -54,6 +65,20 @@ def judge_word(name, word, route='api'):
     return []
 
 
+_PRE = {}
+
+
+def emptied_prefix(name):
+    """a valid word that repeats a name if the model has one (<= 4 children), else the shortest non-empty word"""
+    if name not in _PRE:
+        m = lib.content_model(name)
+        ws, _, _ = words.by_length(m, hist.reduced_alphabet(name), 4, 300)
+        ws = [w for w in ws if w]
+        rep = [w for w in ws if len(set(w)) < len(w)]
+        _PRE[name] = list((rep or ws or [()])[0])
+    return _PRE[name]
+
+
 def _broken(a):
     return a in ('image', 'credit-image', 'link', 'opus')
 
@@ -70,7 +95,7 @@ def run_unit(name, tier, seed):
     first = True
     funcs = set()
     for w in ws:
-        for route in ('api', 'parser'):
+        for route in ('api', 'parser') + (('emptied',) if len(w) <= 3 else ()):
             if first:
                 first = False
                 with hist.symx.FuncTrace() as ft:
@@ -86,7 +111,7 @@ def run_unit(name, tier, seed):
     if complete < maxlen:
         stats['truncated_units'] = 1
     # unbounded particles not iterated three times within the bound
-    r = dict(stats=stats, cands=cands, samples=samples, funcs=sorted(funcs), nontrivial=len([w for w in ws if w]), evaluations=2 * len(ws),
+    r = dict(stats=stats, cands=cands, samples=samples, funcs=sorted(funcs), nontrivial=len([w for w in ws if w]), evaluations=int(stats['paths']),
              bounds=dict(max_word_length=maxlen, complete_up_to_length=complete, words=len(ws), alphabet=len(A), full_alphabet=len(m.names)))
     return finish(r, name)
 
@@ -132,7 +157,7 @@ def replay(c):
 def describe():
     return dict(
         rule='all words of each content model up to the length bound over the alphabet (complete per length, closed by an unsat '
-             'query; the longest length may be cut at the word limit), each fed to add_child in document order and to the parser; '
+             'query; the longest length may be cut at the word limit), each fed to add_child in document order, to the parser, and (words of <= 3 children) to an element that held a valid word before and was emptied by remove(); '
              'distinct = distinct words; non-trivial = non-empty words',
         functions=['xmlelement/xmlelement.py:XMLElement.add_child', 'XMLElement.to_string', 'XMLElement.get_children',
                    'xmlelement/xmlchildcontainer.py:XMLChildContainer.add_element', 'parser/parser.py:_parse_node'],
